@@ -29,7 +29,7 @@ RULE = ("Engine 'differential': a drawn loader computation (asnumpy / average / 
         "submission order, or a fractional limit / upsample > 1.")
 TOLERANCES = {"loads/align/score/landscape/apply": "bitwise", "average": "1e-6 * range (reduction order)"}
 ASSUMPTIONS = ["interleavings inside C extensions (numpy, scipy.fft, polars) and free-threaded builds are not owned by the harness; only the stress engine samples them",
-               "schedule points: every access to TemplateMaskCache._dict (get / set / values iteration)"]
+               "schedule points: every access to TemplateMaskCache._dict (get / set / values iteration) and every attribute write on the shared model object"]
 
 
 def get_model(name):
@@ -149,11 +149,14 @@ def judge_interleave(d):
     kw = {}
     if d["rots"]:
         kw["rotations"] = Rotation.from_rotvec(np.array([[0.0, 0.0, 0.0]] + d["rots"]))
-    q = np.array([0.0, 0.0, 0.0, 1.0], dtype=np.float32)
+    if d.get("tilt") is not None:
+        kw["tilt"] = tuple(d["tilt"])
+    qs = d.get("quats") or [[0.0, 0.0, 0.0]]
+    quats = [Rotation.from_rotvec(qs[i % len(qs)]).as_quat().astype(np.float32) for i in range(d["nthreads"])]
     p = np.zeros(3, dtype=np.float32)
     ms = (d["lmax"],) * 3
 
-    def task(model, op, im):
+    def task(model, op, im, q=None):
         if op == "score":
             return np.float64(model.score(im, q, p))
         if op == "align":
@@ -167,11 +170,13 @@ def judge_interleave(d):
     with warnings.catch_warnings():
         warnings.simplefilter("ignore")
         seq_model = Model(tmpl, **kw)
-        want = [task(seq_model, op, im) for op, im in zip(ops, imgs)]
+        want = [task(seq_model, op, im, q) for op, im, q in zip(ops, imgs, quats)]
         coop = sched.Coop(d["schedule"])
         model = Model(tmpl, **kw)
         sched.instrument_model(model, coop)
-        res = coop.run([(lambda op=op, im=im: task(model, op, im)) for op, im in zip(ops, imgs)])
+        res = coop.run([(lambda op=op, im=im, q=q: task(model, op, im, q)) for op, im, q in zip(ops, imgs, quats)])
+        # state left behind by the interleaved run must not poison later (sequential) calls on the same model
+        after = [task(model, op, im, q) for op, im, q in zip(ops, imgs, quats)]
     tag = f"{d['model']} threads={d['nthreads']} ops={ops} K={1 + len(d['rots'])} schedule={d['schedule'][:12]}"
     for i, (status, val) in enumerate(res):
         if status == "err":
@@ -183,7 +188,11 @@ def judge_interleave(d):
             out.append(viol(f"C10/error-under-interleaving:{type(val).__name__}", f"{tag}: thread {i} raised {type(val).__name__}: {val} at {where[-1]}; "
                             f"trace={coop.trace[:10]}"))
         elif not np.array_equal(np.asarray(val), np.asarray(want[i]), equal_nan=True):
-            out.append(viol("C10/result-under-interleaving", f"{tag}: thread {i} result differs from the sequential one"))
+            out.append(viol("C10/result-under-interleaving", f"{tag}: thread {i} result differs from the sequential one; trace={coop.trace[:12]}"))
+    for i, val in enumerate(after):
+        if not np.array_equal(np.asarray(val), np.asarray(want[i]), equal_nan=True):
+            out.append(viol("C10/state-left-by-interleaving", f"{tag}: call {i} repeated after the interleaved run differs from the sequential result; trace={coop.trace[:12]}"))
+            break
     return out
 
 
@@ -290,7 +299,8 @@ def differential_cases(draw):
 def interleave_cases(draw):
     d = draw(base_case())
     d.update({"nthreads": draw(st.integers(2, 4)), "ops": draw(st.lists(st.sampled_from(["score", "align", "landscape"]), min_size=1, max_size=4)),
-              "schedule": draw(st.lists(st.integers(0, 3), min_size=0, max_size=40))})
+              "schedule": draw(st.lists(st.integers(0, 3), min_size=0, max_size=40)),
+              "quats": [draw(gen.rotvecs())["rv"] for _ in range(draw(st.integers(1, 3)))]})
     return d
 
 
